@@ -1,4 +1,4 @@
-"""C06 -- signature changes keep calls bound to the same values (R06.1-R06.14)."""
+"""C06 -- signature changes keep calls bound to the same values (R06.1-R06.15)."""
 from __future__ import annotations
 
 import ast
@@ -401,33 +401,37 @@ def _star_prefix_symmetry_rule(ctx, res) -> None:
     for f in sorted(idx.functions.values(), key=lambda f: f.qualname):
         if f.unit.modname != mod:
             continue
-        cfg = None
-        for t in walk_local(f.node):
-            if not (isinstance(t, ast.If) and any(isinstance(c, ast.Call) and call_name(c) == "startswith" and c.args and isinstance(c.args[0], ast.Constant)
-                                                    and isinstance(c.args[0].value, str) and set(c.args[0].value) == {"*"} for c in ast.walk(t.test))):
+        if not any(isinstance(c, ast.Call) and call_name(c) == "startswith" and c.args and isinstance(c.args[0], ast.Constant) and isinstance(c.args[0].value, str)
+                   and c.args[0].value and set(c.args[0].value) == {"*"} for c in ast.walk(f.node)):
+            continue
+        cfg = CFG(f.node)
+        for nd in cfg.nodes:
+            st = nd.ast
+            if nd.kind != "stmt" or not (isinstance(st, ast.Assign) and len(st.targets) == 1):
                 continue
-            prefix = next(c.args[0].value for c in ast.walk(t.test) if isinstance(c, ast.Call) and call_name(c) == "startswith" and c.args
-                          and isinstance(c.args[0], ast.Constant) and isinstance(c.args[0].value, str) and set(c.args[0].value) == {"*"})
-            for st in t.body:
-                if not (isinstance(st, ast.Assign) and len(st.targets) == 1):
-                    continue
-                v = st.value
-                ok = None
-                if isinstance(v, ast.Subscript) and isinstance(v.slice, ast.Slice) and v.slice.upper is None and isinstance(v.slice.lower, ast.Constant):
-                    ok = v.slice.lower.value == len(prefix)
-                    how = f"[{v.slice.lower.value}:]"
-                elif isinstance(v, ast.Call) and isinstance(v.func, ast.Attribute) and v.func.attr == "removeprefix" and v.args and isinstance(v.args[0], ast.Constant):
-                    ok = v.args[0].value == prefix
-                    how = f"removeprefix({v.args[0].value!r})"
-                elif isinstance(v, ast.Call) and isinstance(v.func, ast.Attribute) and v.func.attr in ("lstrip", "strip"):
-                    ok = False
-                    how = f"{v.func.attr}({ast.unparse(v.args[0]) if v.args else ''})"
-                if ok is None:
-                    continue
-                n += 1
-                res.add("R06.15", f"{f.qualname.split('.', 3)[-1]}|stars-removed-as-tested:{prefix}#{n}", ok, f"{f.unit.rel}:{st.lineno}",
-                        f"under startswith({prefix!r}) exactly {len(prefix)} character(s) are removed" if ok else
-                        f"under `startswith({prefix!r})` the entry is stored as `{ast.unparse(v)[:50]}` ({how}): that does not remove exactly the {len(prefix)} star(s) the test "
-                        "established -- the second mapping of `f(1, **base, **extra)` reaches the one-star test as `**base`, is stored as `base`, and the writer puts ONE star "
-                        "back: `f(1, *base, **extra)` passes the keys positionally", function=f.qualname)
+            v = st.value
+            ok = how = None
+            if isinstance(v, ast.Subscript) and isinstance(v.slice, ast.Slice) and v.slice.upper is None and isinstance(v.slice.lower, ast.Constant):
+                how = ("slice", v.slice.lower.value)
+            elif isinstance(v, ast.Call) and isinstance(v.func, ast.Attribute) and v.func.attr == "removeprefix" and v.args and isinstance(v.args[0], ast.Constant):
+                how = ("removeprefix", v.args[0].value)
+            elif isinstance(v, ast.Call) and isinstance(v.func, ast.Attribute) and v.func.attr in ("lstrip", "strip") and v.args and isinstance(v.args[0], ast.Constant) \
+                    and isinstance(v.args[0].value, str) and "*" in v.args[0].value:
+                how = ("strip", v.args[0].value)
+            if how is None:
+                continue
+            # the star prefix established for this statement: the longest `startswith("*"...)` among its positive guards
+            prefixes = [c.args[0].value for t, pol in cfg.guards(nd.id) if pol for c in ast.walk(t)
+                        if isinstance(c, ast.Call) and call_name(c) == "startswith" and c.args and isinstance(c.args[0], ast.Constant)
+                        and isinstance(c.args[0].value, str) and c.args[0].value and set(c.args[0].value) == {"*"}]
+            if not prefixes:
+                continue
+            prefix = max(prefixes, key=len)
+            ok = (how[0] == "slice" and how[1] == len(prefix)) or (how[0] == "removeprefix" and how[1] == prefix)
+            n += 1
+            res.add("R06.15", f"{f.qualname.split('.', 3)[-1]}|stars-removed-as-tested:{prefix}#{n}", ok, f"{f.unit.rel}:{st.lineno}",
+                    f"under startswith({prefix!r}) exactly {len(prefix)} character(s) are removed" if ok else
+                    f"under `startswith({prefix!r})` the entry is stored as `{ast.unparse(v)[:50]}`: that does not remove exactly the {len(prefix)} star(s) the test "
+                    "established -- the second mapping of `f(1, **base, **extra)` reaches the one-star test as `**base`, is stored as `base`, and the writer puts ONE star "
+                    "back: `f(1, *base, **extra)` passes the keys positionally", function=f.qualname)
     res.floor("R06.15", "star prefixes removed by the readers of calls and definitions", n, 2)
